@@ -502,8 +502,9 @@ public:
       spx_alloc(newMem, newmax);
 
       /* call copy constructor for first elements */
-      for(i = 0; i < max(); i++)
+      for(i = 0; i < max() && i < newmax; i++)
       {
+         new(&(newMem[i])) Item();
          newMem[i].data = std::move(theitem[i].data);
          newMem[i].info = theitem[i].info;
       }
@@ -603,7 +604,7 @@ public:
       /* call copy constructor for first elements */
       int i;
 
-      for(i = 0; i < old.thenum; i++)
+      for(i = 0; i < old.thesize; i++)
          new(&(theitem[i])) Item(old.theitem[i]);
 
       /* call default constructor for remaining elements */
